@@ -506,9 +506,9 @@ class Model(Object):
         if len(bad_ids) != 0:
             raise ValueError(f"invalid identifiers in {repr(bad_ids)}")
 
+        self.metabolites += metabolite_list
         for x in metabolite_list:
             x._model = self
-        self.metabolites += metabolite_list
 
         # from cameo ...
         to_add = []
